@@ -211,6 +211,12 @@ func clientProfilePB(s *spec.RunSpec, c *spec.Client, idx int) *appctlpb.ClientP
 
 // NewWorld builds the network, starts the real server and the real clients.
 func NewWorld(s *spec.RunSpec, res *spec.RunResult) (*World, error) {
+	return NewWorldOpts(s, res, true)
+}
+
+// NewWorldOpts is NewWorld with the real server optional (the reference server
+// scenario owns the server address itself).
+func NewWorldOpts(s *spec.RunSpec, res *spec.RunResult, startServer bool) (*World, error) {
 	w := &World{Spec: s, Res: res, sessions: map[string]*sessRT{}, probes: map[string]int{}, faults: map[string]int{}, states: map[string]struct{}{}, userUp: map[string]int64{}, userDown: map[string]int64{}}
 	w.start = time.Now()
 	w.Net = simnet.New(s.Seed)
@@ -229,12 +235,14 @@ func NewWorld(s *spec.RunSpec, res *spec.RunResult) (*World, error) {
 
 	protocol.VerifRebaseGlobals() // process-wide replay caches were created under the real clock
 	w.srvNode = w.Net.Node(s.Server.IP)
-	w.srv = server.NewServer()
-	if err := w.srv.Store(&server.ServerConfig{Config: serverConfigPB(&s.Server), StreamListenerFactory: w.srvNode, PacketListenerFactory: w.srvNode}); err != nil {
-		return nil, fmt.Errorf("server Store: %w", err)
-	}
-	if err := w.srv.Start(); err != nil {
-		return nil, fmt.Errorf("server Start: %w", err)
+	if startServer {
+		w.srv = server.NewServer()
+		if err := w.srv.Store(&server.ServerConfig{Config: serverConfigPB(&s.Server), StreamListenerFactory: w.srvNode, PacketListenerFactory: w.srvNode}); err != nil {
+			return nil, fmt.Errorf("server Store: %w", err)
+		}
+		if err := w.srv.Start(); err != nil {
+			return nil, fmt.Errorf("server Start: %w", err)
+		}
 	}
 	for i := range s.Clients {
 		c := &s.Clients[i]
